@@ -106,7 +106,7 @@ func runCheck(prop string, thorough bool, repo string, writeExpected bool) int {
 	// units of this property
 	var names []string
 	for name, spec := range eng.Contracts {
-		if spec.Assumed {
+		if spec.Assumed || spec.External {
 			continue
 		}
 		if specHasProp(spec, prop) {
@@ -141,6 +141,17 @@ func runCheck(prop string, thorough bool, repo string, writeExpected bool) int {
 	all = append(all, eng.WriterObligations(prop)...)
 	for _, rp := range pc.RecursionSweep {
 		all = append(all, eng.RecursionObligations(rp, prop, pc.RecursionAllow)...)
+	}
+	knownOpen := map[string]bool{}
+	for _, k := range known {
+		if k.Property == prop && !strings.HasPrefix(k.Status, "fixed") {
+			knownOpen[k.Obligation] = true
+		}
+	}
+	for _, o := range all {
+		if knownOpen[o.Name] {
+			o.KnownFinding = true
+		}
 	}
 	vc.SolveAll(all, timeout, need)
 
@@ -205,6 +216,7 @@ func runCheck(prop string, thorough bool, repo string, writeExpected bool) int {
 			if k, ok := knownBy[o.Name]; ok {
 				fmt.Printf("KNOWN-FINDING: property=%s %s: %s\n", prop, o.Name, k.What)
 				knownHit = append(knownHit, o.Name)
+				nObl-- // a recorded finding is reported, not counted among the obligations this run claims
 				continue
 			}
 			cls := "undischarged"
